@@ -390,6 +390,119 @@ def do_bits(ctx, case, glits, kept):
     kept.append(case)
 
 
+def gen_wide(rng):
+    """wide registers (54-80 qubits): a handful of outcomes with high bits set that differ in their LOW bits, operators
+    acting on low and on high qubits — integer states beyond 2^53 must keep every bit (no detour through floats)"""
+    n = rng.randint(54, 80)
+    k = rng.randint(2, 5)
+    high = (1 << (n - 1)) | (rng.getrandbits(n - 60) << 59 if n > 60 else 0) | (1 << 53)
+    lows = rng.sample(range(64), k)
+    states = [high | lo for lo in lows]
+    if rng.random() < 0.3:
+        states[-1] = rng.getrandbits(n - 1)  # one unrelated state
+    states = list(dict.fromkeys(states))
+    shots = rng.choice([8, 100, 1000])
+    cuts = sorted(rng.sample(range(1, shots), len(states) - 1))
+    counts = [[format(s_, f"0{n}b"), b - a] for s_, a, b in zip(states, [0] + cuts, cuts + [shots])]
+    rng.shuffle(counts)
+    terms = [[rng.choice(COEFFS), 1 << rng.randrange(6)] for _ in range(rng.randint(1, 3))]          # low qubits
+    terms += [[rng.choice(COEFFS), rng.choice([1 << (n - 1), 1 << 53, (1 << (n - 2)) | 1, 3])] for _ in range(rng.randint(0, 2))]
+    rng.shuffle(terms)
+    case = {"type": "agg", "n": n, "shots": shots, "counts": counts, "op": terms, "op_family": "wide-register", "dist_type": "quasi"}
+    case["alphas"] = sorted(set(rng.sample([1e-3, 0.25, 0.5, rng.randint(1, shots) / shots, 0.99999, 1.0, 0.75], rng.randint(2, 4))))
+    return case
+
+
+EVALUATOR_FORMS = ["plain", "subclass-overrides-evaluate_bitstring", "instance-evaluate_bitstring-wrapped", "callable-object", "functools-partial", "bound-method"]
+
+
+def gen_evalform(rng):
+    """the bitstring path must use what evaluate_bitstring returns — also for a subclass overriding it (here: a penalty on
+    top of super()) or an instance whose evaluate_bitstring was wrapped; and any callable is a valid evaluation function"""
+    n = rng.randint(1, 4)
+    shots = rng.choice([4, 8, 10, 100, 1000])
+    form = rng.choice(EVALUATOR_FORMS + EVALUATOR_FORMS[1:3])
+    _, terms, _ = gen_op(rng, n, rng.choice(["distinct-strings", "duplicate-strings", "single-z"]))
+    pen = []
+    if form in EVALUATOR_FORMS[1:3]:  # the penalty, itself a diagonal function of the key
+        pen = [[rng.choice([2.0, 4.0, -3.0, 0.5]), 1 << rng.randrange(n)], [rng.choice([1.0, 2.0]), 0]]
+    return {"type": "evalform", "n": n, "shots": shots, "counts": gen_counts(rng, n, shots, rng.randint(2, 2**n) if n > 1 else 2), "op": terms, "penalty": pen, "form": form,
+            "alpha": rng.choice([1.0, 0.5, 0.25, 0.1, rng.randint(1, shots) / shots, 0.99999])}
+
+
+def build_evaluator(case):
+    import functools
+
+    from queasars.circuit_evaluation.bitstring_evaluation import BitstringEvaluator
+
+    n, form = case["n"], case["form"]
+    f, pen = bit_function(case["op"], n), bit_function(case["penalty"], n)
+    if form == "plain":
+        return BitstringEvaluator(n, f)
+    if form == "subclass-overrides-evaluate_bitstring":
+        class PenalisedEvaluator(BitstringEvaluator):
+            def evaluate_bitstring(self, bitstring: str) -> float:
+                return super().evaluate_bitstring(bitstring=bitstring) + pen(bitstring)
+
+        return PenalisedEvaluator(n, f)
+    if form == "instance-evaluate_bitstring-wrapped":
+        ev = BitstringEvaluator(n, f)
+        original = ev.evaluate_bitstring
+        ev.evaluate_bitstring = lambda bitstring: original(bitstring=bitstring) + pen(bitstring)
+        return ev
+    if form == "callable-object":
+        class Objective:
+            def __call__(self, bitstring):
+                return f(bitstring)
+
+        return BitstringEvaluator(n, Objective())
+    if form == "functools-partial":
+        return BitstringEvaluator(n, functools.partial(lambda scale_, bitstring: scale_ * f(bitstring), 1.0))
+
+    class Holder:
+        def objective(self, bitstring):
+            return f(bitstring)
+
+    return BitstringEvaluator(n, Holder().objective)
+
+
+def do_evalform(ctx, case, glits, kept):
+    from qiskit.result import QuasiDistribution
+
+    from queasars.circuit_evaluation.expectation_calculation import get_expectation_with_bitstring_evaluator
+
+    n, shots, alpha = case["n"], case["shots"], case["alpha"]
+    total = case["op"] + case["penalty"]  # what evaluate_bitstring returns for this evaluator
+    try:
+        r = read_result(get_expectation_with_bitstring_evaluator(QuasiDistribution({k: c / shots for k, c in case["counts"]}, shots=shots), build_evaluator(case), alpha))
+    except Exception as e:
+        r = ("err", type(e).__name__)
+    ctx.tally("evaluator-form:" + case["form"])
+    exact = [(Fraction(c, shots), value_of(total, int(k, 2))) for k, c in case["counts"]]
+    as_float = [(Fraction(c / shots), v) for (k, c), (_, v) in zip(case["counts"], exact)]
+    a = Fraction(alpha)
+    S = sum((abs(Fraction(c_)) for c_, _ in total), Fraction(0))
+    slack = FLOAT_SLACK * S
+    if isinstance(r, tuple):
+        ctx.violation("oracle", f"raises-bitstring-{r[1]}", f"bitstring path raised {r[1]} with evaluator form '{case['form']}'", case)
+    else:
+        c, b = cvar_exact(exact, a), bounds(exact, a)[1]
+        if no_break_possible(as_float, a):
+            c, b = cvar_exact(as_float, a), Fraction(0)
+            slack += Fraction(1, 10**15) / a * S
+        if abs(Fraction(r) - c) > b + slack:
+            ctx.violation("oracle", "bitstring-path-ignores-evaluate_bitstring" if case["penalty"] else "bitstring-path-off-definition",
+                          f"bitstring path returns {r} with evaluator form '{case['form']}'; aggregating what evaluate_bitstring returns gives {float(c)} (alpha={alpha})", case)
+    _, e1 = accumulate_exact(as_float, a)
+    if e1 <= EDGE:
+        ctx.tally("skipped:isclose-boundary")
+        return
+    d = g_list(f"({g_n(int(k, 2))}, {g_q(c / shots)})" for k, c in case["counts"])
+    op = g_list(f"({g_q(c)}, {g_n(m)})" for c, m in total)
+    glits.append(f"CBits (Some {g_nat(n)}) {d} {op} {g_nat(n)} {g_q(alpha)} {g_q(Fraction(1, 10**9) * S + Fraction(1, 10**40))} {g_res(r)}")
+    kept.append(case)
+
+
 def gen_small_tail(rng):
     """a handful of shots on the lowest value, alpha just beyond their mass: the missing mass (a few 1e-9) is far above
     the relative tolerance rtol*alpha but within numpy's absolute tolerance 1e-8 — the pre-fix break (fix 254e190)
@@ -554,7 +667,7 @@ def do_ctor(ctx, case, glits, kept):
 
 
 def do_case(ctx, case, glits, kept):
-    {"agg": do_agg, "raw": do_raw, "ctor": do_ctor, "bits": do_bits}[case["type"]](ctx, case, glits, kept)
+    {"agg": do_agg, "raw": do_raw, "ctor": do_ctor, "bits": do_bits, "evalform": do_evalform}[case["type"]](ctx, case, glits, kept)
 
 
 def run(ctx):
@@ -562,7 +675,7 @@ def run(ctx):
     ctx.rule = ("distributions from shot counts (shots in {1,2,4,8,10,100,1000,1024} and 1e5/1e6 for the tolerance branch; 1..2^n outcomes, n<=4, random dictionary order, ties) x diagonal "
                 "SparsePauliOp with small dyadic coefficients (families: distinct strings, single Z, duplicate strings, cancelling duplicates, repeated identity, unsimplified SparsePauliOp.sum, complex "
                 "coefficients with zero imaginary part; a state's value is the sum over all terms) and its diagonal as bitstring function x 2-5 alphas from {1, 1/2, 1/4, 0.1, 1-1e-7, 0.99999, c/shots, prefix masses of the "
-                "sorted distribution and values just beside them, random}; a tiny-alpha family {1e-12 .. 1e-6} (below every probability: the exact minimum is demanded); every boundary value of alpha (0, -0.0, tiny negatives, 1+ulp, >1; int/float/numpy) on both functions and both evaluator constructors expecting ValueError; a correspondence-only family of int-keyed distributions narrower than the register (outside the property: Qiskit pads int keys to the largest key); both paths per alpha; distinct = distinct (distribution, operator, alphas); non-trivial = at least two outcomes")
+                "sorted distribution and values just beside them, random}; a tiny-alpha family {1e-12 .. 1e-6} (below every probability: the exact minimum is demanded); every boundary value of alpha (0, -0.0, tiny negatives, 1+ulp, >1; int/float/numpy) on both functions and both evaluator constructors expecting ValueError; wide registers (54-80 qubits, states beyond 2^53 differing in low bits); evaluator forms (plain, subclass overriding evaluate_bitstring, wrapped instance method, callable object, partial, bound method: the aggregation uses what evaluate_bitstring returns); a correspondence-only family of int-keyed distributions narrower than the register (outside the property: Qiskit pads int keys to the largest key); both paths per alpha; distinct = distinct (distribution, operator, alphas); non-trivial = at least two outcomes")
     cases = []
     cdir = core.ROOT / "corpus" / "C14"
     for fpath in sorted(cdir.glob("*.json")) if cdir.exists() else []:
@@ -579,10 +692,14 @@ def run(ctx):
         cases.append(gen_bits(ctx.rng))
     for _ in range(ctx.n(60, 1500)):
         cases.append(gen_small_tail(ctx.rng))
+    for _ in range(ctx.n(60, 1500)):
+        cases.append(gen_wide(ctx.rng))
+    for _ in range(ctx.n(80, 1500)):
+        cases.append(gen_evalform(ctx.rng))
     glits, kept = [], []
     for c in cases:
         do_case(ctx, c, glits, kept)
-        size = len(c["counts"]) if c["type"] == "agg" else len(c["entries"]) if c["type"] == "raw" else len(c["int_counts"]) if c["type"] == "bits" else 0
+        size = len(c["counts"]) if c["type"] == "agg" else len(c["entries"]) if c["type"] == "raw" else len(c["int_counts"]) if c["type"] == "bits" else len(c["counts"]) if c["type"] == "evalform" else 0
         ctx.case(c, size >= 2, sample=c if len(ctx.samples) < 3 and c["type"] == "agg" and size >= 2 else None)
     bad = core.model_mismatches("C14", IMPORTS, "check_case", glits, chunk=200)
     for i in bad[:5]:
